@@ -851,7 +851,10 @@ impl<'a> Lifter<'a> {
                 let mut ty = x.ty.clone();
                 let pat = match &l.pat {
                     syn::Pat::Type(pt) => {
-                        ty = lift_type(self.reg, &pt.ty, self.self_ty.as_deref())?;
+                        // `let x: Vec<_> = ..`: an annotation with inferred parts keeps the initialiser's type
+                        if !pt.ty.to_token_stream().to_string().contains('_') {
+                            ty = lift_type(self.reg, &pt.ty, self.self_ty.as_deref())?;
+                        }
                         self.pattern(&pt.pat, &ty)?
                     }
                     p => self.pattern(p, &ty)?,
